@@ -510,6 +510,102 @@ def shadow_hash(rep, idx, rule):
              wrong="the offset is wrapped with a modulus other than the power-of-two register size" if other_mod else None)
 
 
+def shadow_give_up_bound(rep, idx, rule):
+    """_Shadow.prepare() doubles the shadow until the sharing limit holds and gives up -- a ValueError, the layout is refused --
+    once doubling cannot help any more.  Doubling stops helping only when every address bit of every register takes part in the
+    decoding: size >= 2**ceil_log2(max stop), the addresses in use being 0 .. max stop - 1.  A threshold below that refuses
+    layouts that one more doubling would have balanced (registers that only alias in the address bits not yet decoded); a
+    threshold above it merely costs doublings.  The threshold is read off the guard of the `raise` and compared in normal form."""
+    import ast as _ast
+    from .common import get_fn
+    try:
+        c = get_fn(idx, "Multiplexer._Shadow.prepare")
+    except Exception:
+        rep.unk(rule, "csr/bus.py", "shadow give-up threshold", "_Shadow.prepare not found")
+        return
+    f = c.fi
+    site = f.site
+    rep.analysed(site)
+    what = "prepare() gives up only when every address bit in use is decoded (size >= 2**ceil_log2(max stop))"
+    parents = {}
+    for n in _ast.walk(f.node):
+        for ch in _ast.iter_child_nodes(n):
+            parents[ch] = n
+    binds = {}
+    for n in _ast.walk(f.node):
+        if isinstance(n, _ast.Assign) and len(n.targets) == 1 and isinstance(n.targets[0], _ast.Name):
+            binds.setdefault(n.targets[0].id, []).append(n.value)
+    env = {k: ir.from_ast(v[0], {}) for k, v in binds.items() if len(v) == 1}
+
+    def N(e):
+        e = ir.subst(e, lambda x: env.get(x[1]) if x[0] == 'name' and x[1] in env else None)
+        e = ir.subst(e, lambda x: env.get(x[1]) if x[0] == 'name' and x[1] in env else None)
+        return c.norm(e)
+    SIZE = {c.norm(c.parse("self._size")), c.norm(c.parse("self.size"))}
+    M = c.norm(c.parse("max(r.stop for r in self._ranges)"))
+    W = c.norm(c.parse("2 ** ceil_log2(max(r.stop for r in self._ranges))"))
+    found = 0
+    for r_ in _ast.walk(f.node):
+        if not isinstance(r_, _ast.Raise) or r_.exc is None or "ValueError" not in _ast.unparse(r_.exc)[:20]:
+            continue
+        g = parents.get(r_)
+        while g is not None and not isinstance(g, _ast.If):
+            g = parents.get(g)
+        if g is None or r_ not in g.body:
+            continue
+        t, pos_ = ir.split_neg(N(ir.from_ast(g.test, {})))
+        if t[0] != 'cmp' or t[1] not in ('>=', '>', '<=', '<'):
+            continue
+        if not pos_:
+            t = ('cmp', {'<': '>=', '<=': '>', '>': '<=', '>=': '<'}[t[1]], t[2], t[3])
+        if t[2] in SIZE and t[1] in ('>=', '>'):
+            E, strict = t[3], t[1] == '>'
+        elif t[3] in SIZE and t[1] in ('<=', '<'):
+            E, strict = t[2], t[1] == '<'
+        else:
+            continue
+        found += 1
+        shown = ir.show(E)[:110]
+        if E == W:
+            rep.ok(rule, site, what, f"threshold {shown}" + (" (strict: one more doubling)" if strict else ""))
+            continue
+        X = None
+        if E[0] == 'bin' and E[1] == '**' and E[2] == ('const', 2) and E[3][0] == 'call' and E[3][1] == ('name', 'ceil_log2') and len(E[3][2]) == 1:
+            X = E[3][2][0]
+        if X is None:
+            rep.unk(rule, site, what, f"threshold {shown} is not of the form 2**ceil_log2(...)")
+            continue
+        lower = None
+        if X[0] == 'lin' and any(tm == M and co == 1 for tm, co in X[2]):
+            rest = [(tm, co) for tm, co in X[2] if tm != M]
+            if not rest and X[1] > 0:
+                rep.ok(rule, site, what, f"threshold {shown}: not below 2**ceil_log2(max stop)")
+                continue
+            if not rest and X[1] < 0:
+                lower = (f"the threshold is taken from max stop {X[1]}: when the highest address in use is a power of two (registers at 0 and "
+                         "at 4, one word each) it is one bit short, the topmost register still aliases a lower one at that size, and a "
+                         "layout that the next doubling separates is refused with ValueError")
+            elif all(co < 0 for tm, co in rest) and X[1] <= 0 and any(tm[0] == 'call' and tm[1] == ('name', 'min') for tm, co in rest):
+                lower = ("the threshold is taken from the *span* max stop - min start: the address bits above the span are not decoded yet "
+                         "when it is reached, so registers placed high (two words at 3, one word at 10: chunk 2 is shared at size 8) still share chunks there and a layout that "
+                         "further doublings separate is refused with ValueError")
+        elif X[0] == 'call' and X[1] == ('name', 'max') and len(X[2]) == 1 and X[2][0][0] == 'gen':
+            elt = X[2][0][2]
+            Melt = M[2][0][2] if M[0] == 'call' and M[2] and M[2][0][0] == 'gen' else None
+            if Melt is not None and X[2][0][3] == M[2][0][3] and elt[0] == 'lin' and any(tm == Melt and co == 1 for tm, co in elt[2]) and \
+                    len(elt[2]) == 1 and elt[1] < 0:
+                lower = (f"the threshold is taken from max(stop {elt[1]}): when the highest address in use is a power of two (registers at 0 "
+                         "and at 4, one word each) it is one bit short, the topmost register still aliases a lower one at that size, and a "
+                         "layout that the next doubling separates is refused with ValueError")
+            elif Melt is not None and X[2][0][3] == M[2][0][3] and elt[0] == 'lin' and any(tm == Melt and co == 1 for tm, co in elt[2]) and \
+                    len(elt[2]) == 1 and elt[1] > 0:
+                rep.ok(rule, site, what, f"threshold {shown}: not below 2**ceil_log2(max stop)")
+                continue
+        rep.form(False, rule, site, what, f"threshold {shown}", wrong=lower, **({"line": g.lineno} if lower else {}))
+    if not found:
+        rep.unk(rule, site, what, "no `raise ValueError` guarded by a comparison of the shadow size with a threshold was found in prepare()")
+
+
 def _lin_show(d):
     parts = []
     for k, v in d.items():
@@ -1035,6 +1131,166 @@ def argument_agreement(rep, rule, idx, scope=None):
            nontrivial=n_calls > 0)
 
 
+def forwarded_parameters(rep, rule, idx, classes):
+    """A component that creates its bus port as `Signature(p=p, ...)` hands each like-named constructor parameter to the signature
+    as given: the signature validates it and resolves its defaults (`granularity=None` means data_width).  A parameter that is
+    replaced on the way -- `if granularity is None: granularity = 8` -- gives the port another geometry than the one the
+    parameters describe, for every caller relying on the default."""
+    import ast as _ast
+    from .common import get_ctor
+    n = 0
+    for spec in classes:
+        try:
+            cls = idx.find_class(spec)
+            ct = get_ctor(idx, cls)
+        except Exception:
+            continue
+        init = cls.method("__init__")
+        params = [p_ for p_ in init.params if p_ != "self"]
+        seen = set()
+        for call_ir, gen, dslf, ln in ct.t.calls:
+            root = call_ir
+            if root[0] in ('assigned', 'store'):
+                root = root[-1]
+            for x in ir.walk(ct.norm(root)):
+                if x[0] != 'call' or not ((x[1][0] == 'name' and x[1][1] == 'Signature') or (x[1][0] == 'attr' and x[1][2] == 'Signature')):
+                    continue
+                callee = None
+                try:
+                    callee = idx.resolve_class(x[1], cls.module, cls.outer)
+                except Exception:
+                    callee = None
+                for k, v in x[3]:
+                    if k not in params or (k, ln) in seen:
+                        continue
+                    seen.add((k, ln))
+                    n += 1
+                    what = f"{cls.qual}: parameter `{k}` reaches {ir.show(x[1])}({k}=...) as given"
+                    if v == ('name', k):
+                        rep.ok(rule, init.site, what, "passed through")
+                        continue
+                    none_test = ct.norm(ct.parse(f"{k} is None"))
+                    if v[0] == 'phi' and ir.split_neg(v[1])[0] == ir.split_neg(none_test)[0]:
+                        pol = ir.split_neg(v[1])[1] == ir.split_neg(none_test)[1]
+                        none_arm, keep = (v[2], v[3]) if pol else (v[3], v[2])
+                        if keep == ('name', k):
+                            # the callee's own resolution of None, in terms of this call's arguments
+                            dflt = None
+                            ci = callee.method("__init__") if callee is not None else None
+                            if ci is not None:
+                                for st in _ast.walk(ci.node):
+                                    if isinstance(st, _ast.If) and _ast.unparse(st.test) == f"{k} is None" and len(st.body) == 1 and \
+                                            isinstance(st.body[0], _ast.Assign) and _ast.unparse(st.body[0].targets[0]) == k:
+                                        kw = dict(x[3])
+                                        dflt = ct.norm(ir.subst(ir.from_ast(st.body[0].value, {}),
+                                                                lambda y: kw.get(y[1]) if y[0] == 'name' and y[1] in kw else None))
+                            if dflt is not None and ct.norm(none_arm) == dflt:
+                                rep.ok(rule, init.site, what, f"None is resolved to {ir.show(dflt)[:60]}, as the signature itself does")
+                            elif dflt is not None:
+                                rep.bad(rule, init.site, what,
+                                        f"when `{k}` is left at None the constructor substitutes {ir.show(none_arm)[:60]} before creating the port, "
+                                        f"while {ir.show(x[1])} resolves None to {ir.show(dflt)[:60]}: every component built without an explicit "
+                                        f"`{k}` gets a port of another geometry than its parameters describe", line=ln)
+                            elif ci is not None:
+                                # the signature has no default of its own for this parameter: the default is the component's (its own
+                                # documentation and rules speak for it)
+                                rep.ok(rule, init.site, what, f"the component's own default {ir.show(none_arm)[:60]} stands in for None; "
+                                       f"{ir.show(x[1])} has none", nontrivial=False)
+                            else:
+                                rep.unk(rule, init.site, what, f"None is replaced by {ir.show(none_arm)[:60]} before the signature sees it; the "
+                                        "signature's own default was not read off")
+                            continue
+                    rep.unk(rule, init.site, what, f"the signature receives {ir.show(v)[:80]}")
+    rep.count("forwarded_parameters", n)
+
+
+def single_pass_iterables(rep, rule, idx):
+    """A parameter that is documented / used as an *iterable* may be a one-shot iterator (a generator, iter(...), map(...)).
+    A function that traverses such a parameter twice -- a validation loop, then the comprehension that stores it -- sees nothing
+    the second time: the values pass validation and are then silently lost.  Every parameter that is traversed (for loop,
+    comprehension clause, argument of list / set / frozenset / sorted / ... or a star argument) is traversed at most once on
+    any path, unless it was first materialised (rebound to a collection built from it) or the function refuses everything but
+    re-iterable collections (isinstance test against list / tuple / dict / set / frozenset / Mapping / Sequence ...).  Star
+    parameters (*args) are tuples."""
+    import ast as _ast
+    CONSUMERS = ('list', 'tuple', 'set', 'frozenset', 'sorted', 'dict', 'sum', 'any', 'all', 'max', 'min', 'enumerate', 'zip', 'map',
+                 'filter', 'reversed', 'iter', 'next')
+    REITERABLE = ('list', 'tuple', 'dict', 'set', 'frozenset', 'Mapping', 'Sequence', 'str', 'range', 'MutableMapping', 'MutableSequence',
+                  'Set', 'Collection', 'OrderedDict')
+    n_params = n_multi = 0
+    for f in idx.all_functions():
+        a = f.node.args
+        params = [x.arg for x in a.posonlyargs + a.args + a.kwonlyargs if x.arg not in ("self", "cls")]
+        if not params:
+            continue
+        parents = {}
+        for n in _ast.walk(f.node):
+            for ch in _ast.iter_child_nodes(n):
+                parents[ch] = n
+        for p in params:
+            uses = []
+            for n in _ast.walk(f.node):
+                if isinstance(n, (_ast.For, _ast.comprehension)) and isinstance(n.iter, _ast.Name) and n.iter.id == p:
+                    uses.append(n.iter)
+                elif isinstance(n, _ast.Call) and isinstance(n.func, _ast.Name) and n.func.id in CONSUMERS:
+                    uses.extend(x for x in n.args if isinstance(x, _ast.Name) and x.id == p)
+                elif isinstance(n, _ast.Starred) and isinstance(n.value, _ast.Name) and n.value.id == p and isinstance(n.ctx, _ast.Load):
+                    uses.append(n.value)
+                elif isinstance(n, _ast.YieldFrom) and isinstance(n.value, _ast.Name) and n.value.id == p:
+                    uses.append(n.value)
+            if not uses:
+                continue
+            n_params += 1
+            if len(uses) < 2:
+                continue
+            # rebound before the second traversal (p = frozenset(p) ...): the traversals after the rebinding see a collection
+            rebinds = [n for n in _ast.walk(f.node) if isinstance(n, _ast.Name) and n.id == p and isinstance(n.ctx, _ast.Store)]
+            uses.sort(key=lambda u: (u.lineno, u.col_offset))
+            first_rebind = min((r.lineno for r in rebinds), default=None)
+            raw = [u for u in uses if first_rebind is None or u.lineno <= first_rebind]
+            if len(raw) < 2:
+                continue
+            # refused unless a re-iterable collection
+            typed = False
+            for n in _ast.walk(f.node):
+                if isinstance(n, _ast.Call) and isinstance(n.func, _ast.Name) and n.func.id == "isinstance" and len(n.args) == 2 and \
+                        isinstance(n.args[0], _ast.Name) and n.args[0].id == p:
+                    names = [x.attr if isinstance(x, _ast.Attribute) else getattr(x, 'id', None)
+                             for x in (n.args[1].elts if isinstance(n.args[1], _ast.Tuple) else [n.args[1]])]
+                    if names and all(nm in REITERABLE for nm in names):
+                        typed = True
+            if typed:
+                continue
+
+            def arms_of(node):
+                """(If node, arm) pairs enclosing the node."""
+                out = []
+                ch, par = node, parents.get(node)
+                while par is not None:
+                    if isinstance(par, _ast.If):
+                        out.append((par, 'body' if ch in par.body else ('orelse' if ch in par.orelse else 'test')))
+                    ch, par = par, parents.get(par)
+                return out
+            pairs = []
+            for i_, u in enumerate(raw):
+                for v in raw[i_ + 1:]:
+                    au, av = dict((id(k), a_) for k, a_ in arms_of(u)), dict((id(k), a_) for k, a_ in arms_of(v))
+                    exclusive = any(k in av and {au[k], av[k]} == {'body', 'orelse'} for k in au)
+                    if not exclusive:
+                        pairs.append((u, v))
+            if not pairs:
+                continue
+            n_multi += 1
+            u, v = pairs[0]
+            rep.bad(rule, f.site, f"parameter `{p}` is traversed once",
+                    f"`{p}` is traversed at line {u.lineno} and again at line {v.lineno} without being turned into a collection first: a one-shot "
+                    f"iterable (a generator, iter(...), map(...)) is exhausted by the first pass, so the second sees nothing -- the values are "
+                    "validated and then silently dropped", line=v.lineno)
+    rep.ok(rule, "-", "no iterable parameter is traversed twice on one path", f"{n_params} traversed parameter(s) examined, {n_multi} traversed twice",
+           nontrivial=n_params > 0)
+    rep.count("traversed_parameters", n_params)
+
+
 def write_once_handles(rep, rule, idx, cls_spec):
     """Objects the constructor creates and the hardware is built from (memory, memory data, ports, sub-components) are bound
     to their attribute once: no other method rebinds `self.<attr>`.  A setter that replaces the object instead of updating
@@ -1322,6 +1578,30 @@ def parameter_views(rep, rule, idx, only_modules=None):
             n += 1
             if got == nm:
                 rep.ok(rule, f.site, f"{cls.qual}.{nm} is a view of its own parameter", _ast.unparse(v), nontrivial=False)
+                # ... and what the constructor stored there is the parameter, not a quantity computed from it: a clamped, scaled or
+                # shifted copy makes the getter -- and all the hardware sized from the stored value -- disagree with the argument
+                if nm in params and isinstance(v, _ast.Attribute) and isinstance(v.value, _ast.Name):
+                    try:
+                        from .common import get_ctor
+                        ct = get_ctor(idx, cls)
+                        st_ = ct.stores.get(f"self._{nm}")
+                    except Exception:
+                        st_ = None
+                    if st_ is not None:
+                        sv = ct.norm(st_[0])
+                        P_ = ('name', nm)
+                        arith = [x for x in ir.walk(sv) if ir.mentions(x, P_) and (
+                            (x[0] == 'call' and x[1] in (('name', 'max'), ('name', 'min'), ('name', 'abs'))) or
+                            (x[0] == 'lin' and (x[1] != 0 or any(co != 1 for _, co in x[2])) and any(ir.mentions(t_, P_) for t_, _ in x[2])) or
+                            (x[0] == 'bin' and x[1] in ('//', '%', '<<', '>>', '**', '-', '+', '*')) or
+                            (x[0] == 'nary' and x[1] == '*'))]
+                        if arith and sv != P_:
+                            rep.bad(rule, init.site, f"{cls.qual} keeps `{nm}` as given",
+                                    f"the constructor stores {ir.show(sv)[:90]} under self._{nm}: for some accepted values this is not the "
+                                    f"`{nm}` the caller passed, so the `{nm}` property and everything built from the stored value (delays, "
+                                    "widths, counts) differ from what was asked for", line=getattr(init.node, 'lineno', None))
+                        elif sv == P_:
+                            rep.ok(rule, init.site, f"{cls.qual} keeps `{nm}` as given", "stored unchanged", nontrivial=False)
             elif (got in names or got in params) and (
                     any(isinstance(x, _ast.Attribute) and isinstance(x.ctx, _ast.Store) and x.attr == "_" + nm
                         for fs_ in cls.methods.values() for f_ in fs_ for x in _ast.walk(f_.node)) or
